@@ -172,6 +172,36 @@ PROPS = {
         level_text="Generated search over the argument space of every validating entry point on both exception configurations. Exploration only.",
         level_note="trusts the expected-outcome table in prop_C11.cpp (derived from the property text), g++, rapidcheck",
     ),
+    "C12": dict(
+        bins={"main": dict(tc="gcc", src="prop_C12.cpp", variants=["plain"])},
+        parts=[
+            dict(name="clipper64", workers={Q: 4, T: 4}, cases={Q: 40000, T: 600000}),
+            dict(name="clipperD", workers={Q: 2, T: 2}, cases={Q: 40000, T: 600000}),
+            dict(name="offset", workers={Q: 3, T: 3}, cases={Q: 25000, T: 400000}),
+            dict(name="offset_indep", workers={Q: 3, T: 3}, cases={Q: 25000, T: 400000}),
+            dict(name="rect", workers={Q: 1, T: 1}, cases={Q: 60000, T: 900000}),
+            dict(name="seq5", kind="enum", workers={Q: 3, T: 3}),
+        ],
+        rule=("stateful generation: (clipper64/clipperD) sequences of 3-14 operations AddSubject/AddOpenSubject/AddClip/"
+              "AddReuseableData/PreserveCollinear/ReverseSolution/Execute-into-paths/Execute-into-tree/Clear over a pool of 4 "
+              "path sets (rectilinear, degenerate or random) and 2 shared ReuseableDataContainer64; after EVERY Execute the "
+              "used object's result must be bit-identical to (a) a freshly constructed object given the model's paths and "
+              "options, (b) a clipper fed the container's paths directly, (c) a second identical Execute; (seq5) EXHAUSTIVE: "
+              "all sequences of length <= 5 over a 9-letter alphabet on a fixed pool that contain an Execute; (offset) "
+              "sequences of AddPath(s)/MiterLimit/ArcTolerance/PreserveCollinear/ReverseSolution/Execute paths|tree|delta "
+              "callback/Clear on one ClipperOffset (pools with polygons, polylines, 1- and 2-point and empty paths) against a "
+              "fresh object; (offset_indep) 2-3 items (paths of one group or separate groups with their own join/end types) "
+              "placed farther apart than 2(|delta|*factor+3): the joint result must equal the union of the results alone, for "
+              "EVERY order; (rect) repeated Execute on one RectClip64/RectClipLines64. Non-trivial = an Execute after an "
+              "earlier Execute or Clear (sequences) / non-empty result (independence)"),
+        assumptions=["a ReuseableDataContainer64 is attached to one clipper at most once between Clear() calls",
+                     "Execute(DeltaCallback64,..) installs the callback permanently by API design: the model treats it as an option",
+                     "independence: Polygon-end-type paths of one call have a consistent orientation (documented assumption of ClipperOffset)"],
+        technique="stateful property-based testing (rapidcheck): operation sequences against a fresh-object reference model, plus exhaustive enumeration of short sequences",
+        level_text=("Model-based stateful search with bit-identical comparison against fresh objects after every Execute; short "
+                    "sequences enumerated exhaustively. Exploration only."),
+        level_note="trusts only vector equality and the model bookkeeping in prop_C12.cpp, g++, rapidcheck",
+    ),
     "C02": dict(
         bins={"main": dict(tc="gcc", src="prop_C02.cpp", variants=["plain"])},
         parts=[
